@@ -38,6 +38,7 @@ type world struct {
 	regions []uint64
 	rules   bool
 	nextID  uint64
+	reject  map[string]bool // host label values the administrator configured as reject-leader
 }
 
 func key(i int) []byte {
@@ -59,8 +60,13 @@ func newWorld(ctx context.Context, rng *rand.Rand, nregions int) *world {
 	cl.SetMaxReplicas(3)
 	cl.SetLocationLabels(loc)
 	w.ids = checkerh.GenStores(rng, cl, w.rules)
-	if rng.Intn(2) == 0 {
-		cl.GetOpts().SetLabelProperty(opt.RejectLeader, "host", []string{"h1", "h2", "h3"}[rng.Intn(3)])
+	// reject-leader for no, one or two values of the host label (the store records carry the harness' own reading of it)
+	w.reject = map[string]bool{}
+	hosts := []string{"h1", "h2", "h3"}
+	rng.Shuffle(3, func(i, j int) { hosts[i], hosts[j] = hosts[j], hosts[i] })
+	for _, h := range hosts[:rng.Intn(3)] {
+		cl.GetOpts().SetLabelProperty(opt.RejectLeader, "host", h)
+		w.reject[h] = true
 	}
 	cl.SetEnablePlacementRules(w.rules)
 	tiflash := false
@@ -116,7 +122,7 @@ func (w *world) storeRecs() []trace.Ev {
 	var out []trace.Ev
 	for _, s := range w.cl.GetStores() {
 		rec := checkerh.StoreRec(w.cl, s)
-		rec["reject"] = w.cl.GetOpts().CheckLabelProperty(opt.RejectLeader, s.GetLabels())
+		rec["reject"] = w.reject[s.GetLabelValue("host")]
 		rec["paused"] = !s.AllowLeaderTransfer()
 		out = append(out, rec)
 	}
@@ -252,7 +258,7 @@ func scheds(args map[string]string) error {
 		oc := schedule.NewOperatorController(ctx, w.cl, hb)
 		up := []uint64{}
 		for _, s := range w.cl.GetStores() { // the store an administrator would name for evict-leader / grant-leader
-			if s.IsUp() && s.DownTime() < w.cl.GetOpts().GetMaxStoreDownTime() && !w.cl.GetOpts().CheckLabelProperty(opt.RejectLeader, s.GetLabels()) {
+			if s.IsUp() && s.DownTime() < w.cl.GetOpts().GetMaxStoreDownTime() && !w.reject[s.GetLabelValue("host")] {
 				up = append(up, s.GetID())
 			}
 		}
